@@ -47,6 +47,31 @@ class RecTraj(TrajectoryObserver):
         super().__call__()
 
 
+class Wrap:
+    """logs calls of an observer the driver built itself (logfile / trajectory given as streams), then forwards"""
+
+    def __init__(self, inner, nm, evlog, sim):
+        self.__dict__.update(inner=inner, nm=nm, evlog=evlog, sim=sim)
+
+    @property
+    def interval(self):
+        return self.inner.interval
+
+    def __call__(self):
+        self.evlog.append([1, self.nm, self.sim[0].step_count])
+        return self.inner()
+
+    def write_header(self):
+        self.evlog.append([0])
+        return self.inner.write_header()
+
+    def __getattr__(self, name):
+        return getattr(self.inner, name)
+
+    def __bool__(self):
+        return True
+
+
 def handler(case):
     rng = np.random.default_rng(case["geom_seed"])
     atoms = Atoms("Ar4", positions=rng.uniform(0, 3, (4, 3)), cell=[6, 6, 6], pbc=False)
@@ -54,11 +79,18 @@ def handler(case):
     evlog, sim = [], [None]
     logs, trajs = Stream(), Stream()
     kw = {}
-    if case["logger"] is not None:
+    streams = case.get("streams", False)
+    kw["logging_interval"] = case.get("logging_interval", 1)
+    if streams:
+        if case["logger"] is not None:
+            kw["logfile"] = logs
+        if case["traj"] is not None:
+            kw["trajectory"] = trajs
+    if case["logger"] is not None and not streams:
         lg = RecLogger(logs, case["logger"])
         lg.evlog, lg.sim = evlog, sim
         kw["logfile"] = lg
-    if case["traj"] is not None:
+    if case["traj"] is not None and not streams:
         tr = RecTraj(atoms, trajs, case["traj"])
         tr.evlog, tr.sim = evlog, sim
         kw["trajectory"] = tr
@@ -68,6 +100,13 @@ def handler(case):
     else:
         mc = ForceBias(atoms, delta=0.05, temperature=300.0, seed=case["seed"], **kw)
     sim[0] = mc
+    if streams:
+        obs = mc.file_manager.observers
+        for key, nm in (("default_logger", 1), ("default_trajectory", 2)):
+            if key in obs:
+                obs[key] = Wrap(obs[key], nm, evlog, sim)
+        if mc._default_logger is not None:
+            mc._default_logger = obs["default_logger"]
     for i, iv in enumerate(case["intervals"]):
         mc.file_manager.attach_observer(f"rec{i}", Rec(10 + i, iv, evlog, sim))
     orig_step = mc.step
